@@ -5,6 +5,7 @@ use std::ops::Bound;
 use crate::rigapi::CfgEntry;
 use crate::drive::*;
 use crate::ops::*;
+use crate::reg;
 use crate::util::Rng;
 
 pub const ALL_LAZY: [LazySrc; 6] = [LazySrc::Ref, LazySrc::Mut, LazySrc::Pop, LazySrc::Remove, LazySrc::SwapRemove, LazySrc::Drained];
@@ -1083,4 +1084,207 @@ pub fn forget_ops(case: &mut Case, n: usize, full: bool) -> Vec<Vec<Op>> {
         seqs.push(s);
     }
     seqs
+}
+
+// ---------------------------------------------------------------------------------------------
+// fault enumeration (C06)
+
+/// Follow-up use of every vector after a fault: push, insert, iterate, pop, (clone), clear.
+fn follow_up(ctx: &mut Ctx, case: &mut Case) {
+    for v in 0..NVECS {
+        let len = case.model.vecs[v].len();
+        let room = case.cfg.fixed_cap.map_or(true, |c| len + 2 <= c);
+        let mut ops: Vec<Op> = Vec::new();
+        if room {
+            ops.push(Op::TPush { v, id: case.fresh_id() });
+            ops.push(Op::Insert { v, at: 0, src: Src::Raw(case.fresh_id()) });
+        }
+        ops.push(Op::Iter { v, how: IterHow::Iter, rev: false });
+        ops.push(Op::Pop { v, sink: Sink::DOWNCAST });
+        if len > 0 {
+            ops.push(Op::Remove { v, at: 0, sink: Sink::DROP });
+        }
+        if case.cfg.cloneable && v == 0 {
+            ops.push(Op::CloneVec { v: 0, into: SPARE });
+        }
+        if v == 1 {
+            ops.push(Op::Clear { v });
+        }
+        for op in ops {
+            case.step(ctx, &op);
+            if case.failed {
+                return;
+            }
+        }
+    }
+}
+
+pub fn fault_enum(
+    ctx: &mut Ctx,
+    family: &str,
+    cfgs: &[CfgEntry],
+    l: usize,
+    gen: &dyn Fn(&mut Case, usize, bool) -> Vec<Vec<Op>>,
+    stride: usize,
+) {
+    ctx.begin_family(family);
+    let full = ctx.thorough();
+    for cfg in cfgs {
+        if !ctx.wants_cfg(cfg) || !cfg.elem.tracked {
+            continue;
+        }
+        ctx.begin_cfg(cfg);
+        for len in lengths(cfg, l, false) {
+            for st in states_for(cfg, len) {
+                if cfg.fixed_cap.map_or(false, |c| c < OTHER_LEN) {
+                    continue;
+                }
+                let seqs = {
+                    let mut scratch = arrange(ctx, cfg, st);
+                    let o = gen(&mut scratch, len, full);
+                    scratch.finish(ctx);
+                    o
+                };
+                for (si, seq) in seqs.iter().enumerate() {
+                    if stride > 1 && si % stride != 0 {
+                        continue;
+                    }
+                    let op = seq.last().unwrap();
+                    if !ctx.take(cfg) {
+                        continue;
+                    }
+                    let ordinal = ctx.ordinal - 1;
+                    // 1. fault-free run, counting user-code invocations inside the operation
+                    let n_calls = {
+                        let mut case = arrange(ctx, cfg, st);
+                        case.desc = format!("{}|{}|#{}|fault-free", cfg.name, st.label(), ordinal);
+                        for pre in &seq[..seq.len() - 1] {
+                            case.step_quiet(ctx, pre);
+                        }
+                        reg::fault_count_begin();
+                        let exp = case.model.apply(op);
+                        let out = case.rig.exec(op);
+                        let (mut n, _, _) = reg::fault_end();
+                        if out.panicked || exp.out.panicked || out.unsupported {
+                            // a panic the property itself expects is never combined with an injected one
+                            // (a second panic while unwinding aborts by language rule)
+                            n = 0;
+                            ctx.stats.bump("skipped_expected_panic_or_unsupported", 1);
+                        }
+                        case.leaks_ok = true;
+                        for v in 0..NVECS {
+                            case.resync(v);
+                        }
+                        case.finish(ctx);
+                        n
+                    };
+                    ctx.stats.bump("user_code_calls_enumerated", n_calls);
+                    // 2. the k-th invocation panics
+                    for k in 1..=n_calls {
+                        let mut case = arrange(ctx, cfg, st);
+                        case.leaks_ok = true;
+                        case.check_clones = false;
+                        case.desc = format!("{}|{}|#{}|fault@{k}/{n_calls}", cfg.name, st.label(), ordinal);
+                        for pre in &seq[..seq.len() - 1] {
+                            case.step_quiet(ctx, pre);
+                        }
+                        reg::fault_arm(k);
+                        let out = case.rig.exec(op);
+                        let (_, fired, site) = reg::fault_end();
+                        let desc = format!("{} | {op} [panic injected in {}]", case.desc, site.unwrap_or("-"));
+                        if fired {
+                            ctx.stats.bump("faults_injected", 1);
+                            ctx.stats.bump(&format!("faults_in_{}", site.unwrap_or("?")), 1);
+                            if !out.panicked {
+                                case.failed = true;
+                                ctx.report(&cfg.name, "harness", &opsig(op), "injected panic did not propagate".into(), &desc);
+                            }
+                        }
+                        for v in 0..NVECS {
+                            case.resync(v);
+                        }
+                        let d0 = case.desc.clone();
+                        case.desc = desc.clone();
+                        case.post_check(ctx, &opsig(op), &desc, &[0, 1, 2], None);
+                        if !case.failed {
+                            case.desc = format!("{desc} | follow-up");
+                            follow_up(ctx, &mut case);
+                        }
+                        case.desc = d0;
+                        case.finish(ctx);
+                        record(ctx, cfg, &st.label(), std::slice::from_ref(op), fired, &desc);
+                    }
+                }
+            }
+        }
+    }
+}
+
+/// Replacement iterators that misreport their length (fault-free otherwise).
+pub fn lying_ops(case: &mut Case, n: usize, full: bool) -> Vec<Vec<Op>> {
+    let mut ops = Vec::new();
+    let k_max = if full { 4 } else { 3 };
+    for a in 0..=n {
+        for b in a..=n {
+            for k in 0..=k_max {
+                for delta in [-2i8, -1, 1, 2] {
+                    if let Some(c) = case.cfg.fixed_cap {
+                        let reported = (k as isize + delta as isize).max(0) as usize;
+                        if n - (b - a) + k.max(reported) > c {
+                            continue;
+                        }
+                    }
+                    for typed in [false, true] {
+                        let ids: Vec<_> = (0..k).map(|_| case.fresh_id()).collect();
+                        let script = if (a + b + k) % 3 == 0 { vec![Step { back: false, sink: Sink::DROP }] } else { vec![] };
+                        ops.push(Op::Splice { v: 0, lo: Bound::Included(a), hi: Bound::Excluded(b), typed, repl: Repl::Lying(ids, delta), script, end: End::Drop });
+                    }
+                }
+            }
+        }
+    }
+    singles(ops)
+}
+
+pub fn lying_enum(ctx: &mut Ctx, family: &str, cfgs: &[CfgEntry], l: usize) {
+    ctx.begin_family(family);
+    let full = ctx.thorough();
+    for cfg in cfgs {
+        if !ctx.wants_cfg(cfg) {
+            continue;
+        }
+        ctx.begin_cfg(cfg);
+        for len in lengths(cfg, l, false) {
+            for st in states_for(cfg, len) {
+                if cfg.fixed_cap.map_or(false, |c| c < OTHER_LEN) {
+                    continue;
+                }
+                let seqs = {
+                    let mut scratch = arrange(ctx, cfg, st);
+                    let o = lying_ops(&mut scratch, len, full);
+                    scratch.finish(ctx);
+                    o
+                };
+                for seq in seqs.iter() {
+                    if !ctx.take(cfg) {
+                        continue;
+                    }
+                    let op = &seq[0];
+                    let mut case = arrange(ctx, cfg, st);
+                    case.leaks_ok = true;
+                    case.check_clones = false;
+                    case.desc = format!("{}|{}|#{}", cfg.name, st.label(), ctx.ordinal - 1);
+                    let desc = format!("{} | {op}", case.desc);
+                    let (_o, _e) = case.step(ctx, op);
+                    ctx.stats.bump("lying_iterators", 1);
+                    if !case.failed {
+                        case.desc = format!("{desc} | follow-up");
+                        follow_up(ctx, &mut case);
+                    }
+                    case.finish(ctx);
+                    record(ctx, cfg, &st.label(), seq, true, &desc);
+                }
+            }
+        }
+    }
 }
